@@ -1,4 +1,5 @@
 import NucleoVerif.Props.C03
+import NucleoVerif.Props.C02
 /-! # C03 (companion file) — the scheme's value is linear in the needle length: no wrap-around below 2520 characters
 
 "The value never wraps around for long needles."  The model computes scores in `Nat`, the code in `u16` (saturating
@@ -195,5 +196,117 @@ theorem C03_fits_u16 (cfg : Cfg) (ext : Ext) (h : List Nat) (is : List Nat) (hnd
   generalize bonusCap cfg.white cfg.delim = B at hb hB
   have : (16 + B) * is.length ≤ 26 * 2519 := Nat.mul_le_mul (by omega) hlen
   omega
+
+theorem NoSat_of_bound (white delim : Nat) (cls : Nat → CharClass) (is : List Nat) :
+    ∀ (cs : List Nat) (s : SSt) (col m : Nat), s.runBonus ≤ bonusCap white delim →
+      s.score ≤ 16 * m + bonusCap white delim * (m + 1) →
+      16 * (m + walkMatches is col cs.length) + bonusCap white delim * (m + walkMatches is col cs.length + 1) ≤ 65535 →
+      NoSat white delim cls is s col cs := by
+  intro cs
+  induction cs with
+  | nil => intro s col m _ _ _; trivial
+  | cons c cs ih =>
+    intro s col m h1 h2 htot
+    simp only [List.length_cons, walkMatches] at htot
+    simp only [NoSat]
+    have hB : 8 ≤ bonusCap white delim := by unfold bonusCap; omega
+    by_cases hc : is.contains col = true
+    · simp only [hc, if_true] at htot ⊢
+      have hb := specBonus_le white delim s.prev (cls c)
+      have key : (sMatch white delim s (cls c)).runBonus ≤ bonusCap white delim ∧
+          (sMatch white delim s (cls c)).score ≤ 16 * (m + 1) + bonusCap white delim * (m + 1 + 1) := by
+        unfold sMatch
+        simp only
+        split
+        · constructor
+          · show (if _ then _ else _) ≤ _
+            split <;> omega
+          · show s.score + 16 + max (max _ (if _ then _ else _)) 4 ≤ _
+            have : max (max (specBonus white delim s.prev (cls c))
+                (if specBonus white delim s.prev (cls c) ≥ 8 ∧ specBonus white delim s.prev (cls c) > s.runBonus then specBonus white delim s.prev (cls c) else s.runBonus)) 4
+                ≤ bonusCap white delim := by
+              split <;> omega
+            have e : bonusCap white delim * (m + 1 + 1) = bonusCap white delim * (m + 1) + bonusCap white delim := by
+              rw [Nat.mul_add, Nat.mul_one]
+            omega
+        · constructor
+          · exact hb
+          · show s.score + 16 + specBonus white delim s.prev (cls c) ≤ _
+            have e : bonusCap white delim * (m + 1 + 1) = bonusCap white delim * (m + 1) + bonusCap white delim := by
+              rw [Nat.mul_add, Nat.mul_one]
+            omega
+      have e : m + (1 + walkMatches is (col + 1) cs.length) = m + 1 + walkMatches is (col + 1) cs.length := by omega
+      rw [e] at htot
+      refine ⟨?_, ih _ (col + 1) (m + 1) key.1 key.2 htot⟩
+      -- the state's own score is below the total bound
+      have hmono : 16 * (m + 1) + bonusCap white delim * (m + 1 + 1) ≤
+          16 * (m + 1 + walkMatches is (col + 1) cs.length) + bonusCap white delim * (m + 1 + walkMatches is (col + 1) cs.length + 1) := by
+        have a1 : 16 * (m + 1) ≤ 16 * (m + 1 + walkMatches is (col + 1) cs.length) := Nat.mul_le_mul_left 16 (by omega)
+        have a2 : bonusCap white delim * (m + 1 + 1) ≤ bonusCap white delim * (m + 1 + walkMatches is (col + 1) cs.length + 1) :=
+          Nat.mul_le_mul_left _ (by omega)
+        omega
+      omega
+    · have hc' : is.contains col = false := by simpa using hc
+      simp only [hc', Bool.false_eq_true, if_false, Nat.zero_add] at htot ⊢
+      have key : (sSkip s (cls c)).runBonus ≤ bonusCap white delim ∧ (sSkip s (cls c)).score ≤ 16 * m + bonusCap white delim * (m + 1) := by
+        unfold sSkip
+        exact ⟨h1, by show s.score - _ ≤ _; omega⟩
+      refine ⟨?_, ih _ (col + 1) m key.1 key.2 htot⟩
+      have hmono : 16 * m + bonusCap white delim * (m + 1) ≤
+          16 * (m + walkMatches is (col + 1) cs.length) + bonusCap white delim * (m + walkMatches is (col + 1) cs.length + 1) := by
+        have a1 : 16 * m ≤ 16 * (m + walkMatches is (col + 1) cs.length) := Nat.mul_le_mul_left 16 (by omega)
+        have a2 : bonusCap white delim * (m + 1) ≤ bonusCap white delim * (m + walkMatches is (col + 1) cs.length + 1) :=
+          Nat.mul_le_mul_left _ (by omega)
+        omega
+      omega
+
+/-- **below 2520 characters the `u16` accumulator never saturates** while the scheme is applied to an alignment of distinct
+    indices (both presets' bonus values) -/
+theorem alignNoSat_of_short (cfg : Cfg) (ext : Ext) (h : List Nat) (is : List Nat) (hnd : is.Nodup)
+    (hw : cfg.white ≤ 10) (hdl : cfg.delim ≤ 10) (hlen : is.length ≤ 2519) : alignNoSat cfg ext h is := by
+  unfold alignNoSat
+  cases is with
+  | nil => trivial
+  | cons first tl =>
+    simp only
+    cases hd : h.drop first with
+    | nil => trivial
+    | cons c0 rest =>
+      simp only
+      have hB : bonusCap cfg.white cfg.delim ≤ 10 := by unfold bonusCap; omega
+      have hinit : (sInit cfg.white cfg.delim (if first = 0 then cfg.initial else (h[first - 1]?.map (charClass cfg ext)).getD cfg.initial) (charClass cfg ext c0)).runBonus ≤ bonusCap cfg.white cfg.delim ∧
+          (sInit cfg.white cfg.delim (if first = 0 then cfg.initial else (h[first - 1]?.map (charClass cfg ext)).getD cfg.initial) (charClass cfg ext c0)).score ≤ 16 * 1 + bonusCap cfg.white cfg.delim * (1 + 1) := by
+        unfold sInit
+        simp only
+        have := specBonus_le cfg.white cfg.delim (if first = 0 then cfg.initial else (h[first - 1]?.map (charClass cfg ext)).getD cfg.initial) (charClass cfg ext c0)
+        exact ⟨this, by omega⟩
+      refine NoSat_of_bound cfg.white cfg.delim (charClass cfg ext) (first :: tl) _ _ (first + 1) 1 hinit.1 hinit.2 ?_
+      have hcnt : walkMatches (first :: tl) (first + 1) (rest.take ((first :: tl).getLast?.getD first - first)).length ≤ tl.length := by
+        refine Nat.le_trans (walkMatches_le (first :: tl) hnd _ (first + 1)) ?_
+        simp only [List.filter_cons]
+        have : ¬ (first + 1 ≤ first) := by omega
+        simp only [this, decide_false, Bool.false_eq_true, if_false]
+        exact List.length_filter_le _ _
+      generalize walkMatches (first :: tl) (first + 1) (rest.take ((first :: tl).getLast?.getD first - first)).length = w at hcnt
+      simp only [List.length_cons] at hlen
+      generalize bonusCap cfg.white cfg.delim = B at hB
+      have a1 : 16 * (1 + w) ≤ 16 * 2519 := Nat.mul_le_mul_left 16 (by omega)
+      have a2 : B * (1 + w + 1) ≤ 10 * 2520 := Nat.mul_le_mul hB (by omega)
+      omega
+
+
+/-- **`calculate_score` = the scheme on its alignment, without a saturation hypothesis**: for at most 2519 reported indices
+    (needles of that length) the side condition of `C03_calculateScore_eq_alignScore` holds by itself -/
+theorem C03_calculateScore_eq_alignScore_short (cfg : Cfg) (ext : Ext) (hrep : Rep) (h : List Nat) (n0 : Nat) (nrest : List Nat)
+    (start end_ : Nat) (hse : start < end_) (he : end_ ≤ h.length)
+    (hw : cfg.white ≤ 10) (hd : cfg.delim ≤ 10) (hpp : cfg.preferPrefix = false)
+    (htight : ((calculateScore cfg ext hrep h (n0 :: nrest) start end_).2.getLast?.getD start) + 1 = end_)
+    (hlen : (calculateScore cfg ext hrep h (n0 :: nrest) start end_).2.length ≤ 2519) :
+    (calculateScore cfg ext hrep h (n0 :: nrest) start end_).1 =
+      alignScore cfg ext h (calculateScore cfg ext hrep h (n0 :: nrest) start end_).2 := by
+  have hpw := (C02_calculateScore_indices cfg ext hrep h (n0 :: nrest) start end_ hse he).1
+  have hnd : (calculateScore cfg ext hrep h (n0 :: nrest) start end_).2.Nodup := hpw.imp (fun hab => Nat.ne_of_lt hab)
+  exact C03_calculateScore_eq_alignScore cfg ext hrep h n0 nrest start end_ hse he hw hd hpp htight
+    (alignNoSat_of_short cfg ext h _ hnd hw hd hlen)
 
 end NucleoVerif
